@@ -182,3 +182,7 @@ pub mod mania;
 
 /// Types used in and around this crate.
 pub mod model;
+
+#[cfg(rosu_pp_verif)]
+#[doc(hidden)]
+pub mod verif;
